@@ -5051,6 +5051,646 @@ theorem C03_answer_is_tiles (conf : Hdr) (F : List UInt8) (seg A B : Nat) (hs : 
     · exact (c1 r hr).2.2.1
     · have := (c1 r hr).2.2.2; omega
 
+
+/-! ## Any loss pattern of File Data PDUs: both models composed -/
+
+/-- with room for all requests the deferred procedure issues a single NAK PDU carrying the whole listing -/
+theorem splitReqs_fits (conf : Hdr) (eos m : Nat) :
+    ∀ (reqs cur : List (Nat × Nat)) (out : List Pdu), cur.length + reqs.length ≤ m →
+      splitReqs conf eos m reqs cur out = (cur ++ reqs, out) := by
+  intro reqs
+  induction reqs with
+  | nil => intro cur out _; simp [splitReqs]
+  | cons r rest ih =>
+    intro cur out h
+    unfold splitReqs
+    have : ¬ cur.length ≥ m := by simp at h; omega
+    simp only [this, if_false]
+    rw [ih (cur ++ [r]) out (by simp at h ⊢; omega)]
+    simp
+
+theorem nakSequence_single (conf : Hdr) (eos m : Nat) (trk : Tracker.T) (hne : trk ≠ []) (hfit : trk.length ≤ m) :
+    nakSequence conf eos m false trk = [mkNak conf 0 eos trk] := by
+  unfold nakSequence
+  have := splitReqs_fits conf eos m trk [] [] (by simpa using hfit)
+  simp only [Bool.false_eq_true, if_false] at this ⊢
+  rw [this]
+  have hl : 0 < trk.length := List.length_pos_iff.mpr hne
+  simp [hl]
+
+/-- the coverage completes at some element of a list of tiles that covers everything -/
+theorem completes_at (size : Nat) : ∀ (h2 h : List (Nat × Nat)),
+    (∃ x, x < size ∧ ¬ covered h x) → (∀ x, x < size → covered (h ++ h2) x) →
+    ∃ pre t post, h2 = pre ++ t :: post ∧ (∃ x, x < size ∧ ¬ covered (h ++ pre) x) ∧
+      ∀ x, x < size → covered (h ++ pre ++ [t]) x := by
+  intro h2
+  induction h2 with
+  | nil => intro h ⟨x, hx, hn⟩ hall; exact absurd (by simpa using hall x hx) hn
+  | cons q h2 ih =>
+    intro h hmiss hall
+    by_cases hc : ∀ x, x < size → covered (h ++ [q]) x
+    · exact ⟨[], q, h2, rfl, by simpa using hmiss, by simpa using hc⟩
+    · have hmiss' : ∃ x, x < size ∧ ¬ covered (h ++ [q]) x := by
+        by_contra hcon
+        apply hc
+        intro x hx
+        by_contra hnx
+        exact hcon ⟨x, hx, hnx⟩
+      obtain ⟨pre, t, post, e, h1, h2'⟩ := ih (h ++ [q]) hmiss' (by simpa [List.append_assoc] using hall)
+      refine ⟨q :: pre, t, post, by rw [e]; rfl, ?_, ?_⟩
+      · simpa [List.append_assoc] using h1
+      · simpa [List.append_assoc] using h2'
+
+/-- **A File Data PDU that arrives after the transfer was completed** (the receiver waits for the ACK of
+its Finished PDU, the timer has not run out): nothing happens. -/
+theorem C03_late_file_data_noop (env : Env) (d : DestSt) (rc : RemoteCfg) (hd : Hdr) (off : Nat) (data : List UInt8)
+    (tm : Timer) (ha : AdmissibleA env rc hd) (hb : d.state = .busy) (hstep : d.step = .WAITING_FOR_FINISHED_ACK)
+    (hq : d.queue = []) (hm : d.p.conf.mode = .ack) (hrc : d.p.remoteCfg = some rc)
+    (ht : d.p.ackTimer = some tm) (hrun : tm.timedOut env.now = false) :
+    stateMachine env (some (.fd hd off data)) d = .ok () d := by
+  unfold stateMachine
+  generalize (stateMachineWith env none (stateMachineWith env none (throw Err.recursionError))) = rec
+  msimp [stateMachineWith, checkInsertedPacket, Pdu.hdr, ha.hdir, ha.hdst, ha.hsrc, Pdu.kind,
+    Route.getPacketDestination, hb, transmissionMode, hm, nonIdleFsm,
+    fsmAdvancementAfterPacketsWereSent, hq, hstep, fsmFromReceiving, fsmFromWaitingForMetadata,
+    fsmFromCheckLimit, fsmFromWaitingForMissingData, fsmFromTransferCompletion, fsmFromSendingFinishedPdu,
+    fsmFromWaitingForFinishedAck, handleWaitingForFinishedAck, handlePositiveAckProcedures, getP, ht, hrc, hrun]
+
+/-! ### the sender answers the NAK with exactly the missing tiles -/
+
+open Source.C08 in
+/-- **NAK with any number of valid requests at the sender that waits for the Finished PDU** -/
+theorem C03_sender_answers_nak (env : Source.Env) (s : Source.SrcSt) (rc : RemoteCfg) (h : Hdr)
+    (req : Source.PutReq) (src dst : String) (F : List UInt8) (seg : Nat) (conf : Hdr) (tid : Tid) (sos eos : Nat)
+    (reqs : List (Nat × Nat))
+    (ha : AdmissibleS env s rc h) (hW : WaitingFinS s req src F seg conf rc tid) (hdst : req.dst = some dst)
+    (hseg0 : 0 < seg) (hv : ∀ r ∈ reqs, ValidReq s.p.progress r) :
+    Source.stateMachine env (some (.nak h sos eos reqs)) s =
+      .ok () (afterNak s (reqs.flatMap (answer s.p rc req src dst F))) := by
+  have hadm : Source.checkInsertedPacket env (.nak h sos eos reqs) s = .ok () s := by
+    msimp [Source.checkInsertedPacket, Pdu.hdr, ha.hdir, ha.hsrc, ha.hrc, ha.hdst, ha.hseq, Pdu.kind,
+      Route.getPacketDestination, ha.hmode, hW.hstep]
+  exact C08_nak_call env s rc req src dst F h sos eos reqs hadm hW.hbusy hW.hqueue ha.hmode
+    (Or.inr (Or.inr hW.hstep)) hW.hreq hW.hsrc hdst hW.hrc hW.hfile (by rw [hW.hseg]; exact hseg0) hv
+
+open Source.C08 in
+/-- the chunks of a request cover exactly the requested range -/
+theorem chunkRanges_cover (seg : Nat) (hs : 0 < seg) :
+    ∀ (fuel cur missing : Nat), missing ≤ fuel →
+      ∀ x, covered ((chunkRanges seg fuel cur missing).map (fun c => (c.1, c.1 + c.2))) x ↔
+        (cur ≤ x ∧ x < cur + missing) := by
+  intro fuel
+  induction fuel with
+  | zero =>
+    intro cur missing hm x
+    have : missing = 0 := by omega
+    subst this
+    simp [chunkRanges, covered]
+  | succ fuel ih =>
+    intro cur missing hm x
+    unfold chunkRanges
+    by_cases hpos : missing > 0
+    · simp only [hpos, if_true, List.map_cons]
+      have hrec := ih (cur + min missing seg) (missing - min missing seg) (by omega) x
+      have hcons : covered ((cur, cur + min missing seg) ::
+          (chunkRanges seg fuel (cur + min missing seg) (missing - min missing seg)).map (fun c => (c.1, c.1 + c.2))) x ↔
+          ((cur ≤ x ∧ x < cur + min missing seg) ∨
+           covered ((chunkRanges seg fuel (cur + min missing seg) (missing - min missing seg)).map
+             (fun c => (c.1, c.1 + c.2))) x) := by
+        simp only [covered, List.mem_cons]
+        constructor
+        · rintro ⟨q, hq | hq, h1, h2⟩
+          · subst hq; exact Or.inl ⟨h1, h2⟩
+          · exact Or.inr ⟨q, hq, h1, h2⟩
+        · rintro (⟨h1, h2⟩ | ⟨q, hq, h1, h2⟩)
+          · exact ⟨_, Or.inl rfl, h1, h2⟩
+          · exact ⟨q, Or.inr hq, h1, h2⟩
+      rw [hcons, hrec]
+      omega
+    · have : missing = 0 := by omega
+      subst this
+      simp [covered]
+
+/-- the tiles with which the sender answers the requests of a listing -/
+def ansTiles (seg : Nat) (L : Tracker.T) : List (Nat × Nat) :=
+  L.flatMap fun r => (Source.C08.chunkRanges seg (r.2 - r.1) r.1 (r.2 - r.1)).map (fun c => (c.1, c.1 + c.2))
+
+theorem covered_flatMap {α : Type} (L : List α) (f : α → List (Nat × Nat)) (x : Nat) :
+    covered (L.flatMap f) x ↔ ∃ r ∈ L, covered (f r) x := by
+  simp only [covered, List.mem_flatMap]
+  constructor
+  · rintro ⟨q, ⟨r, hr, hq⟩, h1, h2⟩; exact ⟨r, hr, q, hq, h1, h2⟩
+  · rintro ⟨r, hr, q, hq, h1, h2⟩; exact ⟨q, ⟨r, hr, hq⟩, h1, h2⟩
+
+/-- the answer tiles cover exactly what the listing denotes -/
+theorem ansTiles_cover (seg : Nat) (hs : 0 < seg) (L : Tracker.T) (hw : WF L) (x : Nat) :
+    covered (ansTiles seg L) x ↔ den L x := by
+  have hlt := (C18.C18_wf_means_ascending_nonempty hw).1
+  unfold ansTiles
+  rw [covered_flatMap]
+  simp only [den]
+  constructor
+  · rintro ⟨r, hr, hc⟩
+    have := (chunkRanges_cover seg hs (r.2 - r.1) r.1 (r.2 - r.1) (Nat.le_refl _) x).1 hc
+    have := hlt r hr
+    exact ⟨r, hr, by omega, by omega⟩
+  · rintro ⟨r, hr, h1, h2⟩
+    refine ⟨r, hr, (chunkRanges_cover seg hs (r.2 - r.1) r.1 (r.2 - r.1) (Nat.le_refl _) x).2 ?_⟩
+    have := hlt r hr
+    omega
+
+open Source.C08 in
+/-- for a well-formed grid-aligned listing inside the file: the answer tiles are tiles of the grid, and
+the PDUs the sender queues are their File Data PDUs -/
+theorem ansTiles_spec (p : Source.Params) (rc : RemoteCfg) (req : Source.PutReq) (src dst : String)
+    (F : List UInt8) (seg : Nat) (hs : 0 < seg) (hseg : p.segmentLen = seg) (L : Tracker.T) (hw : WF L)
+    (hg : Bounds (OnGrid seg F.length) L) (hin : ∀ r ∈ L, r.2 ≤ F.length)
+    (hA : ∀ r ∈ L, seg ∣ r.1) :
+    L.flatMap (answer p rc req src dst F) =
+      (ansTiles seg L).map (fun q => Source.mkFd p.conf q.1 (tileData F q.1 q.2)) ∧
+    ∀ q ∈ ansTiles seg L, Tile seg F.length q.1 q.2 := by
+  have hlt := (C18.C18_wf_means_ascending_nonempty hw).1
+  constructor
+  · unfold ansTiles
+    rw [List.map_flatMap]
+    apply List.flatMap_congr
+    intro r hr
+    have hne : r ≠ (0, 0) := by
+      intro hc; have := hlt r hr; rw [hc] at this; simp at this
+    have h1 := (C03_answer_is_tiles p.conf F seg r.1 r.2 hs (Nat.le_of_lt (hlt r hr)) (hA r hr) (hg r hr).2
+      (hin r hr)).1
+    simp only [answer, hne, if_false, hseg, h1, List.map_map]
+    apply List.map_congr_left
+    intro c _
+    simp [Function.comp]
+  · intro q hq
+    simp only [ansTiles, List.mem_flatMap, List.mem_map] at hq
+    obtain ⟨r, hr, c, hc, rfl⟩ := hq
+    exact ((C03_answer_is_tiles (default : Hdr) F seg r.1 r.2 hs (Nat.le_of_lt (hlt r hr)) (hA r hr) (hg r hr).2
+      (hin r hr)).2.1 c hc).1
+
+/-! ### the receiver, all answers delivered -/
+
+/-- File Data PDUs that arrive after the completion are ignored, one by one -/
+theorem feedTiles_late (env : Env) (hd : Hdr) (F : List UInt8) (rc : RemoteCfg) (tm : Timer)
+    (ha : AdmissibleA env rc hd) (hrun : tm.timedOut env.now = false) :
+    ∀ (post : List (Nat × Nat)) (d : DestSt), d.state = .busy → d.step = .WAITING_FOR_FINISHED_ACK → d.queue = [] →
+      d.p.conf.mode = .ack → d.p.remoteCfg = some rc → d.p.ackTimer = some tm →
+      feedTiles env hd F post d = some d := by
+  intro post
+  induction post with
+  | nil => intro d _ _ _ _ _ _; rfl
+  | cons q post ih =>
+    intro d h1 h2 h3 h4 h5 h6
+    have := C03_late_file_data_noop env d rc hd q.1 (tileData F q.1 q.2) tm ha h1 h2 h3 h4 h5 h6 hrun
+    simp only [feedTiles, this]
+    exact ih d h1 h2 h3 h4 h5 h6
+
+/-- as `feedTiles`, the user retrieving whatever a call queued before the next PDU is handed over -/
+def feedTilesD (env : Env) (hd : Hdr) (F : List UInt8) : List (Nat × Nat) → DestSt → Option DestSt
+  | [], d => some d
+  | q :: rest, d =>
+    match stateMachine env (some (.fd hd q.1 (tileData F q.1 q.2))) d with
+    | .ok _ d' => feedTilesD env hd F rest (drained d')
+    | .error _ _ => none
+
+theorem drained_eq {d : DestSt} (h1 : d.queue = []) (h2 : d.numReady = 0) : drained d = d := by
+  cases d; simp_all [drained]
+
+theorem feedTilesD_append (env : Env) (hd : Hdr) (F : List UInt8) :
+    ∀ (l1 l2 : List (Nat × Nat)) (d d' : DestSt), feedTilesD env hd F l1 d = some d' →
+      feedTilesD env hd F (l1 ++ l2) d = feedTilesD env hd F l2 d' := by
+  intro l1
+  induction l1 with
+  | nil => intro l2 d d' h; simp [feedTilesD] at h; subst h; rfl
+  | cons q l1 ih =>
+    intro l2 d d' h
+    simp only [feedTilesD, List.cons_append] at h ⊢
+    cases hc : stateMachine env (some (.fd hd q.1 (tileData F q.1 q.2))) d with
+    | ok u d'' => rw [hc] at h; exact ih l2 _ d' h
+    | error e d'' => rw [hc] at h; simp at h
+
+/-- while nothing is queued by the calls, draining changes nothing: the `WaitG` phase -/
+theorem feedTilesD_wait (env : Env) (hd : Hdr) (dst : String) (F crc : List UInt8) (seg : Nat)
+    (rc : RemoteCfg) (t : Tid) (cks : Nat) (conf : Hdr) (hs : 0 < seg) (ha : AdmissibleA env rc hd) :
+    ∀ (h2 : List (Nat × Nat)) (d : DestSt) (c : List UInt8) (h : List (Nat × Nat)) (tm : Timer),
+      (∀ q ∈ h2, Tile seg F.length q.1 q.2) → WaitG d dst F c crc seg h rc t cks conf tm →
+      (∃ x, x < F.length ∧ ¬ covered (h ++ h2) x) →
+      feedTilesD env hd F h2 d = feedTiles env hd F h2 d := by
+  intro h2
+  induction h2 with
+  | nil => intro d c h tm _ _ _; rfl
+  | cons q h2 ih =>
+    intro d c h tm hT hr hmiss
+    have hTq := hT q List.mem_cons_self
+    have hinv' := hr.hinv.tile hs hTq
+    have hmark' : ((tsOf d.p).tile q.1 q.2).le = F.length := by
+      rw [((tsOf d.p).tile_marker_of_lt (by show q.1 < d.p.lastEnd; rw [hr.hmark]; exact hTq.2.1)).1]
+      exact hr.hmark
+    have hmore : ((tsOf d.p).tile q.1 q.2).trk ≠ [] := by
+      intro hnil
+      obtain ⟨x, hx, hnc⟩ := hmiss
+      have := (hinv'.trk_nil_iff).1 hnil x (by rw [hmark']; exact hx)
+      apply hnc
+      have h' : covered ((h ++ [(q.1, q.2)]) ++ h2) x := covered_mono this
+      simpa [List.append_assoc] using h'
+    obtain ⟨hcall, hr'⟩ := C03_resent_tile_any env d dst F c crc seg h rc t cks conf hd tm q.1 q.2 hs hr ha hTq hmore
+    simp only [feedTilesD, feedTiles, hcall]
+    rw [drained_eq hr'.hqueue hr'.hready]
+    exact ih _ _ _ _ (fun r hr => hT r (List.mem_cons_of_mem _ hr)) hr' (by simpa [List.append_assoc] using hmiss)
+
+/-- File Data PDUs that arrive after the completion are ignored, one by one (the user keeps retrieving) -/
+theorem feedTilesD_late (env : Env) (hd : Hdr) (F : List UInt8) (rc : RemoteCfg) (tm : Timer)
+    (ha : AdmissibleA env rc hd) (hrun : tm.timedOut env.now = false) :
+    ∀ (post : List (Nat × Nat)) (d : DestSt), d.state = .busy → d.step = .WAITING_FOR_FINISHED_ACK → d.queue = [] →
+      d.numReady = 0 → d.p.conf.mode = .ack → d.p.remoteCfg = some rc → d.p.ackTimer = some tm →
+      feedTilesD env hd F post d = some d := by
+  intro post
+  induction post with
+  | nil => intro d _ _ _ _ _ _ _; rfl
+  | cons q post ih =>
+    intro d h1 h2 h3 h3' h4 h5 h6
+    have := C03_late_file_data_noop env d rc hd q.1 (tileData F q.1 q.2) tm ha h1 h2 h3 h4 h5 h6 hrun
+    simp only [feedTilesD, this]
+    rw [drained_eq h3 h3']
+    exact ih d h1 h2 h3 h3' h4 h5 h6
+
+/-- **Recovery from any loss, all retransmissions delivered** (receiver side): as
+`C03_receiver_recovers_any_loss`, for any list `h2` of retransmitted tiles that together with `h1` covers the
+file: the transfer completes at the tile of `h2` that delivers the last missing byte; the tiles after it
+(if any) are ignored. -/
+theorem C03_receiver_recovers_any_loss_all (env : Env) (hd : Hdr) (d0 : DestSt) (dst : String) (F crc : List UInt8)
+    (seg m : Nat) (rc : RemoteCfg) (t : Tid) (cks : Nat) (conf : Hdr) (h1 h2 : List (Nat × Nat))
+    (hs : 0 < seg) (hm1 : 1 ≤ m) (ha : AdmissibleA env rc hd)
+    (hr0 : ReceivingA d0 dst [] rc t cks conf) (himm : rc.imm = false) (hpt0 : d0.p.procTimer = none)
+    (hmax : maxSegReqs rc.maxPkt conf = some m) (hnak : rc.nakMs ≠ 0) (hms : rc.ackMs ≠ 0)
+    (hT1 : ∀ q ∈ h1, Tile seg F.length q.1 q.2) (hT2 : ∀ q ∈ h2, Tile seg F.length q.1 q.2)
+    (hmiss : ∃ x, x < F.length ∧ ¬ covered h1 x)
+    (hall : ∀ x, x < F.length → covered (h1 ++ h2) x)
+    (hver : cks = 15 ∨ ∀ fs : Fs, fs.get dst = some (.file F) →
+      Fs.calcChecksum fs (Checksum.CksType.ofNat cks) dst F.length 4096 = .ok crc) :
+    ∃ d1 d2 d3 dE,
+      feedTiles env hd F h1 d0 = some d1 ∧
+      stateMachine env (some (.eof hd ccNoError crc F.length none)) d1 = .ok () d2 ∧
+      d2.queue = [mkAck conf dtEof ccNoError tsActive] ∧
+      stateMachine env none (drained d2) = .ok () d3 ∧
+      d3.queue = nakSequence conf F.length m false d3.p.trk ∧
+      WF d3.p.trk ∧ Bounds (OnGrid seg F.length) d3.p.trk ∧
+      (∀ x, den d3.p.trk x ↔ (x < F.length ∧ ¬ covered h1 x)) ∧
+      feedTilesD env hd F h2 (drained d3) = some (drained dE) ∧
+      dE.state = .busy ∧ dE.step = .WAITING_FOR_FINISHED_ACK ∧ dE.p.conf = conf ∧
+      dE.queue = [mkFin conf ⟨ccNoError, dcComplete, fsRetained, none⟩] ∧
+      dE.fs.get dst = some (.file F) ∧ (∀ q, q ≠ dst → dE.fs.get q = d0.fs.get q) ∧ dE.flts = [] ∧
+      dE.inds.filter isFinished = d0.inds.filter isFinished ++
+        (if env.cfg.indFinished then [.finished (some t) ⟨ccNoError, dcComplete, fsRetained, none⟩] else []) := by
+  obtain ⟨pre, tl, post, hsplit, hmiss', hall'⟩ := completes_at F.length h2 h1 hmiss hall
+  have hTpre : ∀ q ∈ pre, Tile seg F.length q.1 q.2 := fun q hq => hT2 q (by rw [hsplit]; simp [hq])
+  have hTt : Tile seg F.length tl.1 tl.2 := hT2 tl (by rw [hsplit]; simp)
+  -- the pieces, as in `C03_receiver_recovers_any_loss`
+  obtain ⟨d1, c1, hf1, hR1, ho1, hfin1⟩ := C03_receiver_any_history env hd dst F seg rc t cks conf hs ha h1 d0 [] []
+    hT1 (RecvG.ofReceivingA hr0 himm hpt0)
+  simp only [List.nil_append] at hR1
+  have heof := C03_eof_any env d1 dst F c1 crc seg h1 rc t cks conf hd hR1 ha
+  have hA : AckedG (drained (afterEofG env d1 t crc F.length)) dst F c1 crc seg h1 rc t cks conf :=
+    AckedG.ofRecvG hR1
+  have hEofInv := hR1.hinv.eof
+  have htrkne : (drained (afterEofG env d1 t crc F.length)).p.trk ≠ [] := by
+    intro hnil
+    have hco : ((tsOf d1.p).eof F.length).trk = [] := by
+      show Tracker.coalesce (tailTrk (tsOf d1.p) F.length) = []
+      have : tailTrk (tsOf d1.p) F.length = [] := hnil
+      rw [this]; rfl
+    obtain ⟨x, hx, hnc⟩ := hmiss
+    exact hnc ((hEofInv.trk_nil_iff).1 hco x hx)
+  have hdefc := C03_deferred_any env _ dst F c1 crc seg h1 rc t cks conf m hA hmax hnak htrkne
+  have hW : WaitG (drained (afterDeferredG env (drained (afterEofG env d1 t crc F.length)) rc F.length m)) dst F c1
+      crc seg h1 rc t cks conf ⟨env.now, rc.nakMs⟩ :=
+    WaitG.ofAckedG hA himm (by omega)
+      (by show d1.p.progress ≤ F.length; rw [hR1.hprog]; exact hR1.hinv.leSize)
+      (by intro q hq; show q.2 ≤ d1.p.progress; rw [hR1.hprog]; exact hR1.hinv.hle q hq)
+  obtain ⟨d4, c4, tm4, hf4, hR4, ho4, hfin4⟩ := C03_wait_any_history env hd dst F crc seg rc t cks conf hs ha pre _ c1 h1 _
+    hTpre hW hmiss'
+  have hlastc := C03_last_tile_completes env d4 dst F c4 crc seg (h1 ++ pre) rc t cks conf hd tm4 tl.1 tl.2 hs hR4 ha hTt
+    hall' hms hver
+  have hpos : 0 < rc.ackMs := by omega
+  have hlate := feedTilesD_late env hd F rc ⟨env.now, rc.ackMs⟩ ha (by simp [Timer.timedOut]; omega) post
+    (drained (afterLastG d4 dst F tl.1 tl.2 env t rc tm4)) hR4.hbusy rfl rfl rfl
+    (by show d4.p.conf.mode = .ack; rw [hR4.hconf]; exact hR4.hmode)
+    (by show d4.p.remoteCfg = some rc; exact hR4.hrc) rfl
+  have hd3trk : (afterDeferredG env (drained (afterEofG env d1 t crc F.length)) rc F.length m).p.trk =
+      ((tsOf d1.p).eof F.length).trk := by
+    simp [afterDeferredG, drained, afterEofG, eofP, TS.eof, tailTrk, tsOf]
+  refine ⟨d1, afterEofG env d1 t crc F.length, _, afterLastG d4 dst F tl.1 tl.2 env t rc tm4, hf1, heof, ?_, hdefc,
+    ?_, ?_, ?_, ?_, ?_, hR4.hbusy, rfl, ?_, ?_, ?_, ?_, hR4.hflts, ?_⟩
+  · simp [afterEofG, hR1.hconf]
+  · simp [afterDeferredG, drained, afterEofG, eofP, hR1.hconf]
+  · rw [hd3trk]; exact hEofInv.wf
+  · rw [hd3trk]; exact hEofInv.grid
+  · intro x; rw [hd3trk]; exact hEofInv.exact x
+  · -- feeding pre, then the completing tile, then the ignored rest
+    rw [hsplit]
+    have hD4 : feedTilesD env hd F pre
+        (drained (afterDeferredG env (drained (afterEofG env d1 t crc F.length)) rc F.length m)) = some d4 := by
+      rw [feedTilesD_wait env hd dst F crc seg rc t cks conf hs ha pre _ c1 h1 _ hTpre hW hmiss']
+      exact hf4
+    rw [feedTilesD_append env hd F pre (tl :: post) _ d4 hD4]
+    simp only [feedTilesD, hlastc]
+    exact hlate
+  · show d4.p.conf = conf
+    exact hR4.hconf
+  · simp [afterLastG, hR4.hconf]
+  · simp [afterLastG, Fs.C17.get_set_same]
+  · intro q hq
+    have e1 : (afterLastG d4 dst F tl.1 tl.2 env t rc tm4).fs.get q = d4.fs.get q := by
+      simp [afterLastG, Fs.C17.get_set_other _ _ _ _ hq]
+    rw [e1, ho4 q hq]
+    show d1.fs.get q = d0.fs.get q
+    exact ho1 q hq
+  · have e4 : d4.inds.filter isFinished = d0.inds.filter isFinished := by
+      rw [hfin4]
+      have : (drained (afterDeferredG env (drained (afterEofG env d1 t crc F.length)) rc F.length m)).inds.filter isFinished =
+          d1.inds.filter isFinished := by
+        simp only [drained, afterDeferredG, afterEofG, List.filter_append]
+        cases env.cfg.indEofRecv <;> simp [isFinished]
+      rw [this, hfin1]
+    simp only [afterLastG, List.filter_append, e4]
+    cases env.cfg.indSegRecv <;> cases env.cfg.indFinished <;> simp [isFinished]
+
+/-! ### both models composed -/
+
+/-- the tile with index `i` of the sender's stream is the File Data PDU of the grid's tile `i` -/
+theorem tile_is_fd (conf : Hdr) (F : List UInt8) (seg i : Nat) :
+    Source.C07.tile conf F seg 0 i =
+      .fd { conf with dir := .toRecv } (i * seg) (tileData F (i * seg) (min (i * seg + seg) F.length)) := by
+  simp only [Source.C07.tile, Source.mkFd, Nat.zero_add, tileData]
+  congr 1
+  apply List.ext_getElem?
+  intro j
+  simp only [List.getElem?_take, List.getElem?_drop]
+  by_cases h1 : j < seg
+  · by_cases h2 : j < min (i * seg + seg) F.length - i * seg
+    · simp [h1, h2]
+    · simp only [h1, h2, if_true, if_false]
+      rw [List.getElem?_eq_none (by omega)]
+  · have h2 : ¬ j < min (i * seg + seg) F.length - i * seg := by omega
+    simp [h1, h2]
+
+theorem grid_tile (seg size i : Nat) (hi : i * seg < size) : Tile seg size (i * seg) (min (i * seg + seg) size) :=
+  ⟨⟨i, Nat.mul_comm _ _⟩, hi, rfl⟩
+
+/-- the byte at the start of tile `j` is delivered only by tile `j` -/
+theorem start_covered_only_by_own (seg size : Nat) (hs : 0 < seg) (is : List Nat) (j : Nat)
+    (hc : covered (is.map fun i => (i * seg, min (i * seg + seg) size)) (j * seg)) : j ∈ is := by
+  obtain ⟨q, hq, h1, h2⟩ := hc
+  simp only [List.mem_map] at hq
+  obtain ⟨i, hi, rfl⟩ := hq
+  simp only at h1 h2
+  have h3 : j * seg < i * seg + seg := by omega
+  have h4 : j * seg < (i + 1) * seg := by rw [Nat.add_mul, Nat.one_mul]; exact h3
+  have h5 : j < i + 1 := Nat.lt_of_mul_lt_mul_right h4
+  have h6 : i ≤ j := Nat.le_of_mul_le_mul_right h1 hs
+  have : i = j := by omega
+  subst this; exact hi
+
+/-- a well-formed listing inside `[0, size)` has at most `size` ranges -/
+theorem wf_length_le {lo size : Nat} : ∀ {L : Tracker.T}, WFfrom lo L → (∀ r ∈ L, r.2 ≤ size) → L.length + lo ≤ size ∨ L = [] := by
+  intro L
+  induction L generalizing lo with
+  | nil => intro _ _; exact Or.inr rfl
+  | cons r L ih =>
+    intro hw hin
+    obtain ⟨h1, h2, h3⟩ := hw
+    have hr := hin r List.mem_cons_self
+    rcases ih h3 (fun q hq => hin q (List.mem_cons_of_mem _ hq)) with h | h
+    · left; simp; omega
+    · subst h; left; simp; omega
+
+open Source.C07 Source.C19 Source.C08 in
+/-- **End to end with any loss pattern of File Data PDUs, deferred NAK mode: the two models composed.**
+The sender emits Metadata, the `k` tiles and the EOF.  The Metadata and the EOF arrive; of the tiles,
+those with the indices `is` arrive — any sub-multiset in any order, at least one tile never.  The
+receiver acknowledges the EOF and — the ACK retrieved — issues one NAK PDU that requests exactly the
+bytes no tile delivered.  The sender (the ACK of its EOF received) answers with exactly the missing
+tiles.  They arrive; the receiver completes at the tile that delivers the last missing byte, verifies,
+tells its user and emits the Finished PDU; the sender acknowledges it; both go idle.  Outcome as over a
+fault-free link: the destination file is the source file, no other path touched, no fault, one
+Transaction-Finished indication on each side. -/
+theorem C03_end_to_end_any_loss (envS : Source.Env) (envD : Dest.Env) (s : Source.SrcSt) (d0 : Dest.DestSt)
+    (req : Source.PutReq) (rcS rcD : RemoteCfg) (src dst : String) (F crc : List UInt8) (seg k m : Nat)
+    (is : List Nat) (jlost : Nat) (now2 now3 now4 now5 : Nat)
+    (hst : s.state = .busy) (hstep : s.step = .IDLE) (hq : s.queue = []) (hreq : s.putReq = some req)
+    (hpmo : s.p.metadataOnly = false) (hsrc : req.src = some src) (hdst : req.dst = some dst)
+    (hfile : s.fs.get src = some (.file F)) (hF : F ≠ []) (hprog : s.p.progress = 0)
+    (hrc : s.p.remoteCfg = some rcS) (hrcid : rcS.entityId.val = req.destId.val)
+    (hbits : s.prov.bits = 8 ∨ s.prov.bits = 16 ∨ s.prov.bits = 32)
+    (hseg : Source.segLenOf rcS (startConf envS req rcS s (decide (F.length > 4294967295))) = some seg)
+    (hseg0 : 0 < seg) (hmode : s.p.conf.mode = .ack) (hct : s.p.checkTimer = none)
+    (hk : (k - 1) * seg < F.length ∧ F.length ≤ k * seg)
+    (hcks : Checksum.calcChecksum (Checksum.CksType.ofNat rcS.cks) F F.length seg = .ok crc)
+    (hnull : Checksum.CksType.ofNat rcS.cks ≠ .null) (hlen : crc.length = 4) (hack : rcS.ackMs ≠ 0)
+    (ha : AdmissibleA envD rcD { startConf envS req rcS s (decide (F.length > 4294967295)) with dir := .toRecv })
+    (hackD : rcD.ackMs ≠ 0) (hnak : rcD.nakMs ≠ 0) (himm : rcD.imm = false)
+    (hmaxs : maxSegReqs rcD.maxPkt
+      (let c := startConf envS req rcS s (decide (F.length > 4294967295))
+       ⟨.toSend, c.mode, c.crc, c.large, c.src, c.dst, c.seq⟩) = some m) (hroom : F.length ≤ m)
+    (hidle : d0.state = .idle) (hdq : d0.queue = []) (hdr : d0.numReady = 0) (hrej : d0.rejects = [])
+    (hfl : d0.flts = []) (hnd : Fs.isDir d0.fs dst = false)
+    (hok : (∃ old, d0.fs.get dst = some (.file old)) ∨
+           (Fs.exists' d0.fs dst = false ∧ Fs.parentIsDir d0.fs dst = true))
+    (his : ∀ i ∈ is, i < k) (hjl : jlost < k) (hjn : jlost ∉ is)
+    (hverD : rcS.cks = 15 ∨ ∀ fs : Fs, fs.get dst = some (.file F) →
+      Fs.calcChecksum fs (Checksum.CksType.ofNat rcS.cks) dst F.length 4096 = .ok crc) :
+    let conf := startConf envS req rcS s (decide (F.length > 4294967295))
+    let cd : Hdr := ⟨.toSend, conf.mode, conf.crc, conf.large, conf.src, conf.dst, conf.seq⟩
+    let hdR : Hdr := { conf with dir := .toRecv }
+    let fpOk : FinishedParams := ⟨ccNoError, dcComplete, fsRetained, none⟩
+    let h1 := is.map fun i => (i * seg, min (i * seg + seg) F.length)
+    ∃ pdus s3 dM d1 d2 s4 d3 s5 dE s6 d8 s7,
+      -- sender: Metadata, tiles, EOF
+      rounds envS (1 + k + 1) s = some (pdus, s3) ∧
+      pdus = [Source.mkMd conf s.p.closure rcS.cks F.length (some src) (some dst) (some (req.msgs.getD []))] ++
+          (List.range k).map (tile conf F seg 0) ++ [Source.mkEof conf ccNoError crc F.length] ∧
+      -- receiver: the Metadata, the tiles that arrive (they are the sender's: `tile_is_fd`), the EOF
+      Dest.stateMachine envD (some (Source.mkMd conf s.p.closure rcS.cks F.length (some src) (some dst)
+        (some (req.msgs.getD [])))) d0 = .ok () dM ∧
+      feedTiles envD hdR F h1 dM = some d1 ∧
+      Dest.stateMachine envD (some (Source.mkEof conf ccNoError crc F.length)) d1 = .ok () d2 ∧
+      d2.queue = [.ack cd dtEof ccNoError tsActive] ∧
+      Source.stateMachine ⟨envS.cfg, now2⟩ (some (.ack cd dtEof ccNoError tsActive)) s3 = .ok () s4 ∧ s4.queue = [] ∧
+      -- receiver: one NAK for exactly what is missing; sender: exactly the missing tiles
+      Dest.stateMachine envD none (C02.drained d2) = .ok () d3 ∧
+      d3.queue = [.nak cd 0 F.length d3.p.trk] ∧
+      (∀ x, den d3.p.trk x ↔ (x < F.length ∧ ¬ covered h1 x)) ∧
+      Source.stateMachine ⟨envS.cfg, now3⟩ (some (.nak cd 0 F.length d3.p.trk)) s4 = .ok () s5 ∧
+      s5.queue = (ansTiles seg d3.p.trk).map (fun q => Source.mkFd conf q.1 (tileData F q.1 q.2)) ∧
+      -- receiver: all of them, complete, Finished; sender acknowledges
+      feedTilesD envD hdR F (ansTiles seg d3.p.trk) (C02.drained d3) = some (C02.drained dE) ∧ dE.queue = [.fin cd fpOk] ∧
+      Source.stateMachine ⟨envS.cfg, now4⟩ (some (.fin cd fpOk)) (Source.C07.drained s5) = .ok () s6 ∧
+      s6.queue = [Source.mkAck conf dtFinished ccNoError tsActive] ∧
+      Dest.stateMachine envD (some (Source.mkAck conf dtFinished ccNoError tsActive)) (C02.drained dE) = .ok () d8 ∧
+      Source.stateMachine ⟨envS.cfg, now5⟩ none (Source.C07.drained s6) = .ok () s7 ∧
+      -- outcome
+      s7.state = .idle ∧ d8.state = .idle ∧ s7.queue = [] ∧ d8.queue = [] ∧
+      d8.fs.get dst = some (.file F) ∧ (∀ q, q ≠ dst → d8.fs.get q = d0.fs.get q) ∧ s7.fs = s.fs ∧
+      d8.flts = [] ∧ s7.flts = s.flts ∧
+      s7.inds.filter isFinished = s.inds.filter isFinished ++
+        (if envS.cfg.indFinished then [.finished (some ⟨envS.cfg.entityId, ⟨s.prov.next, s.prov.bits / 8⟩⟩) fpOk]
+         else []) ∧
+      d8.inds.filter isFinished = d0.inds.filter isFinished ++
+        (if envD.cfg.indFinished then [.finished (some ⟨conf.src, conf.seq⟩) fpOk] else []) := by
+  intro conf cd hdR fpOk h1
+  have hsrcv : conf.src.val = envS.cfg.entityId.val := by simp [conf, startConf]
+  have hdstv : conf.dst.val = rcS.entityId.val := by simp [conf, startConf, hrcid]
+  have hseqv : conf.seq.val = s.prov.next := by simp [conf, startConf]
+  -- sender up to the point where it waits for the Finished PDU
+  obtain ⟨s3, s4, hrun, h4, hW, hfs4, hfl4, hin4⟩ :=
+    C03_sender_run_to_waiting envS s req rcS src dst F crc seg k cd ccNoError tsActive now2
+      hst hstep hq hreq hpmo hsrc hdst hfile hF hprog hrc hbits hseg hseg0 hmode hct hk hcks hnull hlen hack
+      rfl hsrcv hdstv hseqv
+  -- receiver: Metadata
+  obtain ⟨hmd, hRA⟩ := C02_metadata_ack envD d0 hdR rcD s.p.closure rcS.cks F.length src dst
+    (some (req.msgs.getD [])) ha hidle hdq hdr hrej hfl hnd hok
+  -- the tiles that arrive are tiles of the grid; tile `jlost` never arrives
+  have hk1 : 1 ≤ k := by omega
+  have hlt : ∀ i, i < k → i * seg < F.length := by
+    intro i hi
+    have : i * seg ≤ (k - 1) * seg := Nat.mul_le_mul_right _ (by omega)
+    omega
+  have hT1 : ∀ q ∈ h1, Tile seg F.length q.1 q.2 := by
+    intro q hq
+    simp only [h1, List.mem_map] at hq
+    obtain ⟨i, hi, rfl⟩ := hq
+    exact grid_tile seg F.length i (hlt i (his i hi))
+  have hmiss : ∃ x, x < F.length ∧ ¬ covered h1 x :=
+    ⟨jlost * seg, hlt jlost hjl, fun hc => hjn (start_covered_only_by_own seg F.length hseg0 is jlost hc)⟩
+  -- the receiver's run, with all the sender's answers delivered: stated for the answer list below
+  have hpt0 : (afterMdA envD d0 hdR rcD s.p.closure rcS.cks F.length src dst (some (req.msgs.getD []))).p.procTimer = none := by
+    simp [afterMdA, mdParamsA]
+  have hm1 : 1 ≤ m := by
+    have : 0 < F.length := List.length_pos_iff.mpr hF
+    omega
+  -- first the part that does not depend on the answers: up to the NAK
+  obtain ⟨d1, c1, hf1, hR1, ho1, hfin1⟩ := C03_receiver_any_history envD hdR dst F seg rcD ⟨hdR.src, hdR.seq⟩ rcS.cks
+    cd hseg0 ha h1 _ [] [] hT1 (RecvG.ofReceivingA hRA himm hpt0)
+  simp only [List.nil_append] at hR1
+  have hEofInv := hR1.hinv.eof
+  -- the listing after the EOF: well-formed, on the grid, inside the file, exactly the missing bytes
+  let L := ((tsOf d1.p).eof F.length).trk
+  have hLw : WF L := hEofInv.wf
+  have hLg : Bounds (OnGrid seg F.length) L := hEofInv.grid
+  have hLd : ∀ x, den L x ↔ (x < F.length ∧ ¬ covered h1 x) := hEofInv.exact
+  have hLlt := (C18.C18_wf_means_ascending_nonempty hLw).1
+  have hLin : ∀ r ∈ L, r.2 ≤ F.length := by
+    intro r hr
+    have hd : den L (r.2 - 1) := ⟨r, hr, by have := hLlt r hr; omega, by have := hLlt r hr; omega⟩
+    have := ((hLd _).1 hd).1
+    omega
+  have hLA : ∀ r ∈ L, seg ∣ r.1 := by
+    intro r hr
+    rcases (hLg r hr).1 with h | h
+    · exact h
+    · have := hLlt r hr; have := hLin r hr; omega
+  have hLne : L ≠ [] := by
+    intro hnil
+    obtain ⟨x, hx, hnc⟩ := hmiss
+    have := (hLd x).2 ⟨hx, hnc⟩
+    rw [hnil] at this
+    simp at this
+  have hLfit : L.length ≤ m := by
+    rcases wf_length_le (lo := 0) hLw hLin with h | h
+    · omega
+    · exact absurd h hLne
+  -- the answers
+  obtain ⟨hans, hansT⟩ := ansTiles_spec s4.p rcS req src dst F seg hseg0 hW.hseg L hLw hLg hLin hLA
+  have hall : ∀ x, x < F.length → covered (h1 ++ ansTiles seg L) x := by
+    intro x hx
+    by_cases hc : covered h1 x
+    · exact covered_mono hc
+    · have hd := (hLd x).2 ⟨hx, hc⟩
+      have := (ansTiles_cover seg hseg0 L hLw x).2 hd
+      obtain ⟨q, hq, q1, q2⟩ := this
+      exact ⟨q, List.mem_append_right _ hq, q1, q2⟩
+  obtain ⟨d1', d2, d3, dE, hf1', heof, hq2, hdef, hq3, -, -, hd3, hfeedD, hEb, hEs, hEc, hEq, hEfile, hEother, hEflts,
+      hEinds⟩ :=
+    C03_receiver_recovers_any_loss_all envD hdR _ dst F crc seg m rcD ⟨hdR.src, hdR.seq⟩ rcS.cks cd h1 (ansTiles seg L)
+      hseg0 hm1 ha hRA himm hpt0 hmaxs hnak hackD hT1 hansT hmiss hall hverD
+  have hd11 : d1' = d1 := by
+    have := hf1'.symm.trans hf1
+    simpa using this
+  subst hd11
+  -- the listing in `d3` is `L`
+  have hd3L : d3.p.trk = L := by
+    have hA : AckedG (C02.drained (afterEofG envD d1' ⟨hdR.src, hdR.seq⟩ crc F.length)) dst F c1 crc seg h1 rcD
+        ⟨hdR.src, hdR.seq⟩ rcS.cks cd := AckedG.ofRecvG hR1
+    have heof' := C03_eof_any envD d1' dst F c1 crc seg h1 rcD ⟨hdR.src, hdR.seq⟩ rcS.cks cd hdR hR1 ha
+    have e2 : d2 = afterEofG envD d1' ⟨hdR.src, hdR.seq⟩ crc F.length := by
+      have := heof.symm.trans heof'
+      simpa using this
+    have htrkne : (C02.drained (afterEofG envD d1' ⟨hdR.src, hdR.seq⟩ crc F.length)).p.trk ≠ [] := by
+      intro hnil
+      apply hLne
+      show Tracker.coalesce (tailTrk (tsOf d1'.p) F.length) = []
+      have : tailTrk (tsOf d1'.p) F.length = [] := hnil
+      rw [this]; rfl
+    have hdef' := C03_deferred_any envD _ dst F c1 crc seg h1 rcD ⟨hdR.src, hdR.seq⟩ rcS.cks cd m hA hmaxs hnak htrkne
+    rw [e2] at hdef
+    have e3 : d3 = afterDeferredG envD (C02.drained (afterEofG envD d1' ⟨hdR.src, hdR.seq⟩ crc F.length)) rcD F.length m := by
+      have := hdef.symm.trans hdef'
+      simpa using this
+    rw [e3]
+    simp [afterDeferredG, C02.drained, afterEofG, eofP, TS.eof, tailTrk, tsOf, L]
+  rw [hd3L] at hq3 hd3
+  have hnakq : d3.queue = [.nak cd 0 F.length L] := by
+    rw [hq3, nakSequence_single cd F.length m L hLne hLfit]; rfl
+  -- the sender serves the NAK
+  have hadm : ∀ t, AdmissibleS ⟨envS.cfg, t⟩ s4 rcS cd := fun t =>
+    { hdir := rfl, hsrc := hsrcv, hrc := hW.hrc, hdst := hdstv,
+      hseq := by rw [hW.hconf],
+      hmode := by rw [hW.hconf]; simp [conf, startConf, hmode] }
+  have hvalid : ∀ r ∈ L, ValidReq s4.p.progress r := by
+    intro r hr
+    right
+    rw [hW.hprog]
+    exact ⟨Nat.le_of_lt (hLlt r hr), hLin r hr⟩
+  have h5 := C03_sender_answers_nak ⟨envS.cfg, now3⟩ s4 rcS cd req src dst F seg conf _ 0 F.length L (hadm now3) hW hdst
+    hseg0 hvalid
+  rw [hans, hW.hconf] at h5
+  -- closing: Finished to the sender (in its retransmission step), ACK to the receiver, completion
+  have hadm5 : AdmissibleS ⟨envS.cfg, now4⟩ (Source.C07.drained (afterNak s4
+      ((ansTiles seg L).map fun q => Source.mkFd conf q.1 (tileData F q.1 q.2)))) rcS cd :=
+    { hdir := rfl, hsrc := hsrcv, hrc := hW.hrc, hdst := hdstv,
+      hseq := by show cd.seq.val = s4.p.conf.seq.val; rw [hW.hconf],
+      hmode := by show s4.p.conf.mode = .ack; rw [hW.hconf]; simp [conf, startConf, hmode] }
+  have h6 := C03_sender_finished_any ⟨envS.cfg, now4⟩ _ rcS cd fpOk req hadm5 hW.hbusy
+    (Or.inr (Or.inr ⟨rfl, by show some s4.step = some .WAITING_FOR_FINISHED; rw [hW.hstep]⟩)) rfl hW.hreq
+  have hfa := C02_finished_acked envD (C02.drained dE) rcD hdR ccNoError tsActive ha hEb hEs rfl
+    (by show dE.p.conf.mode = .ack; rw [hEc]; simp [cd, conf, startConf, hmode])
+  have h7 := C02_source_completion ⟨envS.cfg, now5⟩ (Source.C07.drained (afterFinS (waitFinS
+      (Source.C07.drained (afterNak s4 ((ansTiles seg L).map fun q => Source.mkFd conf q.1 (tileData F q.1 q.2))))) fpOk))
+    fpOk _ req hW.hbusy rfl rfl hW.hreq rfl hW.htid
+  refine ⟨_, s3, _, d1', d2, s4, d3, _, dE, _, idleOf (C02.drained dE), _, hrun, rfl, hmd, hf1, heof, ?_, h4, hW.hqueue, hdef,
+    (by rw [hd3L]; exact hnakq), (by rw [hd3L]; exact hd3), (by rw [hd3L]; exact h5),
+    ?_, (by rw [hd3L]; exact hfeedD), ?_, h6, ?_, ?_, h7, rfl, rfl, rfl, rfl, ?_, ?_, ?_, ?_, ?_, ?_, ?_⟩
+  · rw [hq2]; simp [Dest.mkAck, dtEof, dtFinished, cd]
+  · rw [hd3L]; simp [afterNak, hW.hqueue]
+  · rw [hEq]; simp [Dest.mkFin, cd, fpOk]
+  · show [Source.mkAck s4.p.conf dtFinished fpOk.cond tsActive] = _
+    rw [hW.hconf]
+  · simpa [Source.mkAck, dtFinished, hdR, idleOf] using hfa
+  · show dE.fs.get dst = some (.file F); exact hEfile
+  · intro q hq'
+    show dE.fs.get q = d0.fs.get q
+    rw [hEother q hq']
+    simp [afterMdA, Fs.C17.get_set_other _ _ _ _ hq']
+  · show s4.fs = s.fs; exact hfs4
+  · show dE.flts = []; exact hEflts
+  · show s4.flts = s.flts; exact hfl4
+  · simp only [Source.C07.drained, afterFinS, waitFinS, afterNak, List.filter_append, hin4]
+    cases envS.cfg.indFinished <;> simp [isFinished]
+  · show dE.inds.filter isFinished = _
+    rw [hEinds]
+    simp [afterMdA, isFinished, hdR, fpOk]
+
 end AnyLoss
 
 end Cfdp.C03
@@ -5202,6 +5842,23 @@ example : True := by
     (by intro x hx
         have : x = 0 ∨ x = 1 ∨ x = 2 ∨ x = 3 ∨ x = 4 := by simp [F] at hx; omega
         rcases this with rfl | rfl | rfl | rfl | rfl <;> simp [covered])
+    (Or.inr (by
+      intro fs hfs
+      simp only [Fs.calcChecksum, hfs]
+      decide +kernel))
+  trivial
+
+
+/-- the hypotheses of `C03_end_to_end_any_loss` are satisfiable: 5 bytes in three tiles; the last tile
+arrives first, then the first; the middle one never (`jlost = 1`) -/
+example : True := by
+  have h := C03_end_to_end_any_loss envS envD s d0 req rcS rcD "/a" "/b" F [71, 11, 153, 244] 2 3 29 [2, 0] 1
+    1 2 3 4
+    rfl rfl rfl rfl rfl rfl rfl rfl (by decide) rfl rfl rfl (by decide) (by decide) (by decide) rfl rfl
+    (by decide) (by decide +kernel) (by decide) rfl (by decide)
+    ⟨rfl, rfl, by decide, rfl⟩ (by decide) (by decide) rfl (by decide) (by decide)
+    rfl rfl rfl rfl rfl (by decide) (Or.inl ⟨[9], rfl⟩)
+    (by decide) (by decide) (by decide)
     (Or.inr (by
       intro fs hfs
       simp only [Fs.calcChecksum, hfs]
